@@ -1,5 +1,5 @@
 (* Facts about the reference map itself (it really is last-write-wins). *)
-From Coq Require Import NArith ZArith List Bool Lia.
+From Coq Require Import NArith ZArith List Bool Lia ZifyN ZifyNat ZifyBool.
 From GB Require Import Consts Words Hash Bucket RefMap.
 Import ListNotations.
 Open Scope N_scope.
@@ -26,4 +26,72 @@ Proof.
       replace (0 <? - Z.abs (e_ver e) - 1)%Z with false; [reflexivity|]. symmetry. apply Z.ltb_ge. lia.
     + rewrite Em, El. reflexivity.
   - cbn [fst snd spec_step]. rewrite Em. reflexivity.
+Qed.
+
+(* ---- versions (C04): sets with automatic revision and deletes ---- *)
+Definition ver_of (m : smap) (k : bytes) : Z := match s_get m k with Some e => e_ver e | None => 0%Z end.
+
+Definition plain_write (so : sop) : bool :=
+  match so with SSet _ _ _ rev => (rev =? 0)%Z | SDel _ | SGet _ | SMeta _ | SNop => true | SIncr _ _ => false end.
+
+(* a write never touches another key's entry *)
+Definition wkey (so : sop) : option bytes :=
+  match so with SSet k _ _ _ | SDel k | SIncr k _ => Some k | _ => None end.
+
+Lemma spec_other_key chk m so k : wkey so <> Some k ->
+  s_get (fst (spec_step chk m so)) k = s_get m k.
+Proof.
+  intros H.
+  destruct so as [k' v f rev|k'|k' d|k'|k'|]; cbn [spec_step wkey] in *.
+  - destruct (s_get m k') as [e|]; cbn [andb].
+    + destruct (_ && chk).
+      * destruct (negb _); cbn [fst s_get s_put]; [|reflexivity]. destruct (list_eq_dec N.eq_dec k' k); [congruence|reflexivity].
+      * destruct (next_version _ _); cbn [fst s_get s_put]; [|reflexivity]. destruct (list_eq_dec N.eq_dec k' k); [congruence|reflexivity].
+    + destruct (next_version _ _); cbn [fst s_get s_put]; [|reflexivity]. destruct (list_eq_dec N.eq_dec k' k); [congruence|reflexivity].
+  - destruct (s_get m k') as [e|]; [|reflexivity]. destruct (live e); cbn [fst s_get s_put]; [|reflexivity].
+    destruct (list_eq_dec N.eq_dec k' k); [congruence|reflexivity].
+  - destruct (s_get m k') as [e|].
+    + destruct (live e).
+      * destruct (22 <? _); [reflexivity|]. destruct (if e_flag e =? flag_incr then _ else _); cbn [fst s_get s_put]; [|reflexivity].
+        destruct (list_eq_dec N.eq_dec k' k); [congruence|reflexivity].
+      * cbn [fst s_get s_put]. destruct (list_eq_dec N.eq_dec k' k); [congruence|reflexivity].
+    + cbn [fst s_get s_put]. destruct (list_eq_dec N.eq_dec k' k); [congruence|reflexivity].
+  - destruct (s_get m k') as [e|]; [destruct (live e)|]; reflexivity.
+  - destruct (s_get m k') as [e|]; reflexivity.
+  - reflexivity.
+Qed.
+
+(* accepted writes get strictly larger absolute versions; everything else leaves the version alone *)
+Lemma spec_version_step chk m so k : plain_write so = true ->
+  let m' := fst (spec_step chk m so) in
+  s_get m' k = s_get m k \/ (Z.abs (ver_of m k) < Z.abs (ver_of m' k))%Z.
+Proof.
+  intros Hp. cbv zeta. unfold ver_of.
+  destruct so as [k' v f rev|k'|k' d|k'|k'|]; cbn [plain_write] in Hp; try discriminate; cbn [spec_step].
+  - apply Z.eqb_eq in Hp. subst rev. change (negb (0 =? 0)%Z) with false. cbv iota.
+    destruct (s_get m k') as [e|] eqn:Ek'; cbn [andb].
+    + destruct (_ && chk); [left; destruct (s_get m k'); reflexivity|].
+      unfold next_version. change (0 =? 0)%Z with true. cbv iota. cbn [fst s_get s_put].
+      destruct (list_eq_dec N.eq_dec k' k) as [<-|Hne]; [|now left]. right. rewrite Ek'. cbn [e_ver].
+      destruct (Z.leb_spec 0 (e_ver e)); lia.
+    + unfold next_version. change (0 =? 0)%Z with true. cbv iota. cbn [fst s_get s_put].
+      destruct (list_eq_dec N.eq_dec k' k) as [<-|Hne]; [|now left]. right. rewrite Ek'. reflexivity.
+  - destruct (s_get m k') as [e|] eqn:Ek'; [|now left]. destruct (live e) eqn:El; cbn [fst s_get s_put]; [|now left].
+    destruct (list_eq_dec N.eq_dec k' k) as [<-|Hne]; [|now left]. right. rewrite Ek'. cbn [e_ver]. lia.
+  - left. destruct (s_get m k') as [e|]; [destruct (live e)|]; reflexivity.
+  - left. destruct (s_get m k') as [e|]; reflexivity.
+  - now left.
+Qed.
+
+(* hence along any run of such operations the absolute version of a key never decreases:
+   the final entry of every key is the write with the highest version *)
+Lemma spec_version_mono chk ops : forall m k, forallb plain_write ops = true ->
+  (Z.abs (ver_of m k) <= Z.abs (ver_of (fold_left (fun mm o => fst (spec_step chk mm o)) ops m) k))%Z.
+Proof.
+  induction ops as [|o t IH]; intros m k Hp; cbn [fold_left]; [lia|].
+  cbn [forallb] in Hp. apply andb_prop in Hp as [Ho Ht].
+  specialize (IH (fst (spec_step chk m o)) k Ht).
+  destruct (spec_version_step chk m o k Ho) as [E|L].
+  - unfold ver_of in *. rewrite E in IH. exact IH.
+  - lia.
 Qed.
